@@ -36,6 +36,17 @@ func c08Scenarios() []c07Scenario {
 			op(1), op(1), x(1), x(0), op(0), x(0), x(1),
 		}})
 		if kind != sim.Document {
+			// a push that carries a transaction of the user between plain operations (4 stored documents: marker, two
+			// operations, one plain operation): an insert that is interrupted keeps what it has written so far
+			n = 0
+			tx := &sim.Tx{Tag: "t", FailAt: -1, Calls: []sim.Call{c06CheapCall(kind, 100), c06CheapCall(kind, 101)}}
+			out = append(out, c07Scenario{Name: fmt.Sprintf("%s/transaction", kind), Kind: kind, Steps: []c07Step{
+				{K: "client", C: 0}, {K: "open", C: 0, Mode: "create"}, op(0), x(0),
+				{K: "client", C: 1}, {K: "open", C: 1, Mode: "subscribe"}, x(1),
+				{K: "tx", C: 0, Tx: tx}, op(0), x(0), x(1), op(1), x(1), x(0), x(1),
+			}})
+		}
+		if kind != sim.Document {
 			// pushes of different sizes right after each other: what a push that collides with operations left
 			// behind by an interrupted one stores (all of it or nothing) shows only when it is the longer one
 			n = 0
@@ -51,9 +62,14 @@ func c08Scenarios() []c07Scenario {
 
 type c08Fault struct {
 	K    int    `json:"k"`             // command number (1-based, counted from the first scenario step)
-	Mode string `json:"mode"`          // fail-before | apply-then-error | stop-after
+	Mode string `json:"mode"`          // fail-before | apply-then-error | stop-after | part-then-error | part-then-stop
 	Len  int    `json:"len,omitempty"` // outage: commands K..K+Len-1 fail (0 = 1; not for stop-after)
+	// Part: part-then-error / part-then-stop hit an insert of more than Part documents: its first Part documents
+	// are stored, then the command fails / the server dies
+	Part int `json:"part,omitempty"`
 }
+
+func (f *c08Fault) stops() bool { return f.Mode == "stop-after" || f.Mode == "part-then-stop" }
 
 func (f *c08Fault) hits(seq int) bool {
 	n := f.Len
@@ -78,6 +94,8 @@ type c08Result struct {
 	patched    bool
 	writeSeqs  []int    // command numbers of the writes (fault-free runs)
 	context    []string // the commands around the fault (for the journal)
+	// insertDocs (fault-free run only): command number -> number of documents, for inserts of >= 2 documents
+	insertDocs map[int]int
 }
 
 // c08Run executes a scenario with at most one storage fault, then recovers and checks.
@@ -95,6 +113,18 @@ func c08Run(sc c07Scenario, f *c08Fault, idseed uint64) (res c08Result) {
 		switch f.Mode {
 		case "stop-after":
 			w.env.Mongo.StopAfter(f.K)
+		case "part-then-error", "part-then-stop":
+			mode := fakemongo.ApplyPartThenError
+			if f.Mode == "part-then-stop" {
+				mode = fakemongo.ApplyPartThenStop
+			}
+			w.env.Mongo.SetPartialDocs(f.Part)
+			w.env.Mongo.SetFaultHook(func(c *fakemongo.Cmd) fakemongo.Fault {
+				if c.Seq == f.K {
+					return mode
+				}
+				return fakemongo.None
+			})
 		default:
 			mode := fakemongo.FailBefore
 			if f.Mode == "apply-then-error" {
@@ -153,7 +183,7 @@ func c08Run(sc c07Scenario, f *c08Fault, idseed uint64) (res c08Result) {
 	}()
 	pending := map[int]*cluster.PackClient{}
 	healIfStopped := func() error {
-		if f != nil && f.Mode == "stop-after" && !stopped && w.env.Mongo.CommandCount() >= f.K {
+		if f != nil && f.stops() && !stopped && w.env.Mongo.CommandCount() >= f.K {
 			// the database (and with it the server process) died: restart against the same data
 			stopped = true
 			w.env.WaitBackground(3 * time.Second)
@@ -191,6 +221,13 @@ func c08Run(sc c07Scenario, f *c08Fault, idseed uint64) (res c08Result) {
 			d := c.dts[k.Name]
 			if d.entered || d.mode == "create" {
 				sim.Exec(sc.Kind, d.dt, st.Call)
+			}
+		case "tx":
+			c := w.clients[st.C]
+			d := c.dts[k.Name]
+			if _, txErr, pan := sim.ExecTx(sc.Kind, d.dt, *st.Tx); txErr != nil || pan != nil {
+				res.err = fmt.Errorf("HARNESS-ERROR: step %d: the scenario's transaction failed: err=%v panic=%v", si, txErr, pan)
+				return res
 			}
 		case "patch":
 			// REST patch of the document (served from the stored snapshot + log, pushes through the same path)
@@ -267,6 +304,12 @@ func c08Run(sc c07Scenario, f *c08Fault, idseed uint64) (res c08Result) {
 		for _, r := range w.env.Mongo.CommandLog() {
 			if r.Verb == "insert" || r.Verb == "update" || r.Verb == "findAndModify" || r.Verb == "delete" {
 				res.writeSeqs = append(res.writeSeqs, r.Seq)
+			}
+			if r.Verb == "insert" && r.NDocs >= 2 {
+				if res.insertDocs == nil {
+					res.insertDocs = map[int]int{}
+				}
+				res.insertDocs[r.Seq] = r.NDocs
 			}
 		}
 	}
@@ -357,6 +400,7 @@ func TestC08Enum(t *testing.T) {
 	col := stats.New("C08", t.Name(),
 		"EXHAUSTIVE single-fault enumeration over database commands: each fixed scenario (Counter / List / Document; create + subscribe + push/pull mix; subscribe-or-create twice) is first run fault-free to number every MongoDB command it causes (client registration, push-pull, the post-response snapshot goroutine); "+
 			"then for EVERY command number k and each mode of {fail before applying, apply then report an error, last command before the database/server dies + restart (quick: every 3rd k; thorough: every k)} the scenario is re-run with that one fault, followed by up to 5 retry rounds against the healthy store; "+
+			"every insert of n >= 2 documents (the operations of a push; one scenario pushes a user's transaction between plain operations) is also interrupted after each proper prefix: the first 1..n-1 documents are stored, then the command fails, or the server dies (an ordered bulk insert keeps what it has written); "+
 			"oracle: every call is answered in time (no hang, no crash of the process), an error response reaches the client's error handler without panic or state change, every acknowledged operation is stored, after recovery the log invariants hold, nothing is left unpushed, retries succeed, and all clients = server rebuild = refmodel(log); "+
 			"non-trivial = the faulted command was a write; distinct = (scenario, k, mode)")
 	defer col.Flush()
@@ -379,16 +423,29 @@ func TestC08Enum(t *testing.T) {
 			enumFail(t, "C08", j, "scenario %s fails without any fault: %v", sc.Name, base.err)
 		}
 		for k := 1; k <= base.commands; k++ {
-			for _, mode := range []string{"fail-before", "apply-then-error", "stop-after"} {
+			type cell struct {
+				mode string
+				part int
+			}
+			cells := []cell{{"fail-before", 0}, {"apply-then-error", 0}, {"stop-after", 0}}
+			// an insert of n >= 2 documents interrupted after each proper prefix (always, not strided)
+			for part := 1; part < base.insertDocs[k]; part++ {
+				cells = append(cells, cell{"part-then-error", part}, cell{"part-then-stop", part})
+			}
+			for _, cl := range cells {
+				mode := cl.mode
 				if mode == "stop-after" && k%stopStride != 0 {
 					complete = false
 					continue
 				}
 				canon := fmt.Sprintf("%s|%d|%s", sc.Name, k, mode)
+				if cl.part > 0 {
+					canon += fmt.Sprintf("|%d", cl.part)
+				}
 				if int(hashString(canon)%uint64(nshards)) != shard {
 					continue
 				}
-				f := &c08Fault{K: k, Mode: mode}
+				f := &c08Fault{K: k, Mode: mode, Part: cl.part}
 				r := c08Run(sc, f, uint64(500+si))
 				matrix[fmt.Sprintf("%s %s x %s", r.faultedOn, strings.TrimPrefix(r.faultedNS[strings.Index(r.faultedNS, ".")+1:], "-_-"), mode)]++
 				if r.err != nil {
@@ -410,7 +467,7 @@ func TestC08Enum(t *testing.T) {
 					labels = append(labels, "client-saw-error")
 				}
 				col.Case(r.writeHit, canon, labels, func() interface{} {
-					return map[string]interface{}{"scenario": sc.Name, "k": k, "mode": mode, "faulted_command": r.faultedOn + " " + r.faultedNS}
+					return map[string]interface{}{"scenario": sc.Name, "k": k, "mode": mode, "part": cl.part, "faulted_command": r.faultedOn + " " + r.faultedNS}
 				})
 			}
 		}
